@@ -409,21 +409,39 @@ Section Guards.
     && distinct_n (map v_index (get_all_vars m))
     && seq_spans_ok (S (length (get_element_vars m))) (get_element_vars m).
 
-  (* every class reachable from cl through class-typed fields; fuel = number of classes + 1
-     (a class graph with a cycle is outside the guard) *)
-  Fixpoint wf_reach (fuel : nat) (cl : cls) : bool :=
+  (* every class reachable from cl through class-typed element fields is in the fragment.  `reach`
+     collects the reachable classes (work list with a visited set; recursive class graphs - trees,
+     linked lists - are fine); the guard then CHECKS that the collected set contains cl, is closed
+     under the class-typed fields, and that every member is in the fragment, so nothing rests on how
+     the set was computed (a wrong or truncated set makes the guard false) *)
+  Definition class_children (m : xmeta) : list cls :=
+    flat_map (fun e => flat_map (fun v => match v_clazz v with Some k => [k] | None => [] end) (snd e)) (m_elements m).
+  Fixpoint reach (fuel : nat) (todo seen : list cls) : list cls :=
     match fuel with
-    | O => false
-    | S k =>
-        match u_meta u cl with
-        | None => false
-        | Some m =>
-            N.eqb (m_clazz m) cl && wf_class m
-            && forallb (fun e => forallb (fun v => match v_clazz v with Some k' => wf_reach k k' | None => true end) (snd e))
-                       (m_elements m)
+    | O => seen
+    | S f =>
+        match todo with
+        | [] => seen
+        | k :: r =>
+            if existsb (N.eqb k) seen then reach f r seen
+            else match u_meta u k with
+                 | Some m => reach f (class_children m ++ r) (k :: seen)
+                 | None => reach f r (k :: seen)
+                 end
         end
     end.
-  Definition wf_model (cl : cls) : bool := wf_reach (S (length (u_metas u))) cl.
+  Definition closed_ok (R : list cls) : bool :=
+    forallb (fun k => match u_meta u k with
+                      | Some m =>
+                          N.eqb (m_clazz m) k && wf_class m
+                          && forallb (fun k' => existsb (N.eqb k') R) (class_children m)
+                      | None => false
+                      end) R.
+  Definition reach_fuel : nat :=
+    S (length (u_metas u)) * S (fold_right (fun km acc => length (class_children (snd km)) + acc)%nat O (u_metas u)).
+  Definition wf_model (cl : cls) : bool :=
+    let R := reach reach_fuel [cl] [] in
+    existsb (N.eqb cl) R && closed_ok R.
 
   (* ---- instances ------------------------------------------------------------------- *)
   Definition vtype (v : xvar) : ptype := match v_types v with [t] => t | _ => TObject end.
